@@ -577,7 +577,11 @@ func checkWire(c *core.Check, which string) {
 				dd = []decl{}
 			}
 			ops = append(ops, map[string]any{"id": opID, "m": w.op.Method, "t": w.tmpl, "decls": dd, "body": body, "bodyVia": bodyVia(a, w.op.Body), "resps": resps, "hasDefault": hasDefault})
-			for s := 0; s < nSeeds; s++ {
+			nCalls := nSeeds
+			if strings.HasPrefix(id, "dx") {
+				nCalls = 24 // (few hand-made operations: enough calls for every response of each to be returned)
+			}
+			for s := 0; s < nCalls; s++ {
 				caseN++
 				cid := fmt.Sprintf("c%d", caseN)
 				g.Wire = append(g.Wire, driver.WireCase{ID: cid, Op: opID, Seed: rng.Int63(), RespSeed: rng.Int63n(1 << 40), Reads: plans[caseN%len(plans)]})
@@ -648,6 +652,8 @@ func checkWire(c *core.Check, which string) {
 	defer sc.Close()
 	var kept []driver.Group
 	var failedPacks []string
+	dxRefused := map[string]string{} // packs in dialect forms the generator refuses today, and what it said
+	defer func() { c.Cov["dialect_packs_refused"] = dxRefused }()
 	for _, g := range groups {
 		if _, ex := sc.Excluded[g.Pkg]; ex {
 			dup := false // (a package has two groups: through NewClient and through LocalClient)
@@ -658,6 +664,10 @@ func checkWire(c *core.Check, which string) {
 			}
 			if !dup && !strings.HasPrefix(g.Pkg, "dx") {
 				failedPacks = append(failedPacks, g.Pkg)
+			}
+			if strings.HasPrefix(g.Pkg, "dx") {
+				ex := sc.Excluded[g.Pkg]
+				dxRefused[g.Pkg] = trunc(ex.Err+" "+strings.Join(ex.TypeErr, "; "), 300)
 			}
 			continue
 		}
